@@ -40,7 +40,11 @@ TInit ==
 (* what the inspection API must answer in state X (C14)                    *)
 RTagOf(X, n) == IF X.st[n] = "ok" THEN X.res[n][1] ELSE IF X.st[n] = "exc" THEN "null" ELSE "unset"
 ETagOf(X, n) == IF X.st[n] = "exc" THEN X.res[n][2] ELSE 0
-SnapOf(C, X) == [i \in 1..(C.n - 1) |-> <<BitsOf(X, i + 1), RTagOf(X, i + 1), ETagOf(X, i + 1)>>]
+(* the badge printed by list() / debrief(): life-cycle symbol (done, running, *)
+(* scheduled, idle) and outcome symbol (raised, running-or-ran, none)        *)
+BadgeOf(X, n) == (IF IsDoneOf(X, n) THEN 0 ELSE IF IsRunningOf(X, n) THEN 1 ELSE IF IsScheduledOf(X, n) THEN 2 ELSE 3) * 3
+               + (IF X.st[n] = "exc" THEN 0 ELSE IF IsRunningOf(X, n) THEN 1 ELSE 2)
+SnapOf(C, X) == [i \in 1..(C.n - 1) |-> <<BitsOf(X, i + 1), RTagOf(X, i + 1), ETagOf(X, i + 1), BadgeOf(X, i + 1)>>]
 
 DiagOf(X, s) ==
   CASE X.cause[s] = "success"  -> <<"fine", 4>>
